@@ -154,7 +154,9 @@ func runCBC(c cbcCase, r *pb.Rec) error {
 	}
 	var enc []byte
 	var err error
-	plain, secret := append([]byte(nil), c.Plain...), append([]byte(nil), c.Secret...)
+	// secret and plaintext are the two halves of one record in one array, the plaintext right behind the secret
+	// (the secret's capacity reaches over it); the record has a neighbour behind it, too
+	secret, plain, recIntact := packed(c.Secret, c.Plain)
 	if c.StrForm {
 		enc, err = cryptz.Encrypt(string(c.Plain), string(c.Secret))
 	} else {
@@ -164,7 +166,10 @@ func runCBC(c cbcCase, r *pb.Rec) error {
 		return fmt.Errorf("Encrypt: %v", err)
 	}
 	if !bytes.Equal(plain, c.Plain) || !bytes.Equal(secret, c.Secret) {
-		return fmt.Errorf("Encrypt modified its arguments")
+		return fmt.Errorf("Encrypt modified its arguments (secret and plaintext are neighbours in one array: secret %x, plaintext now %x, was %x)", secret, plain, c.Plain)
+	}
+	if e := recIntact(); e != nil {
+		return fmt.Errorf("Encrypt: %v", e)
 	}
 	encKeep := string(enc)
 	cryptz.Encrypt("another plaintext of another length", "another secret")
@@ -192,6 +197,9 @@ func runCBC(c cbcCase, r *pb.Rec) error {
 		dec, err = cryptz.Decrypt(string(enc), string(c.Secret))
 	} else {
 		dec, err = cryptz.Decrypt(append([]byte(nil), enc...), secret)
+		if !bytes.Equal(plain, c.Plain) || recIntact() != nil {
+			return fmt.Errorf("Decrypt changed the caller's memory behind the secret (same array, beyond its length)")
+		}
 	}
 	if err != nil || !bytes.Equal(dec, c.Plain) {
 		return fmt.Errorf("Decrypt(Encrypt(p)) = %x, %v want %x", dec, err, c.Plain)
@@ -364,7 +372,17 @@ func runGCM(c gcmCase, r *pb.Rec) error {
 	if c.StrForm {
 		enc, err = cryptz.GCMEncrypt(string(c.Plain), string(c.Secret), string(c.AAD))
 	} else {
-		enc, err = cryptz.GCMEncrypt(append([]byte(nil), c.Plain...), append([]byte(nil), c.Secret...), append([]byte(nil), c.AAD...))
+		sec, aadW, recIntact := packed(c.Secret, c.AAD)
+		pl, _, plIntact := packed(c.Plain, nil)
+		enc, err = cryptz.GCMEncrypt(pl, sec, aadW)
+		if !bytes.Equal(sec, c.Secret) || !bytes.Equal(aadW, c.AAD) || !bytes.Equal(pl, c.Plain) {
+			return fmt.Errorf("GCMEncrypt modified its arguments (secret and additional data are neighbours in one array)")
+		}
+		for _, f := range []func() error{recIntact, plIntact} {
+			if e := f(); e != nil {
+				return fmt.Errorf("GCMEncrypt: %v", e)
+			}
+		}
 	}
 	if err != nil {
 		return fmt.Errorf("GCMEncrypt: %v", err)
@@ -627,7 +645,30 @@ func genStream(t *rapid.T) streamCase {
 	return c
 }
 
+// packed lays a and b out as neighbours in one array: a's capacity reaches over b and over a few bytes behind b
+// that the caller still owns. intact reports whether those bytes are unchanged.
+func packed(a, b []byte) (wa, wb []byte, intact func() error) {
+	const tail = "\x00owned by the caller"
+	whole := append(append(append(make([]byte, 0, len(a)+len(b)+len(tail)), a...), b...), tail...)
+	wa, wb = whole[:len(a)], whole[len(a):len(a)+len(b):len(a)+len(b)]
+	return wa, wb, func() error {
+		if string(whole[len(a)+len(b):]) != tail {
+			return fmt.Errorf("the bytes behind the arguments (same array, owned by the caller) were changed to %q", whole[len(a)+len(b):])
+		}
+		return nil
+	}
+}
+
 func encStream(w io.Writer, rd io.Reader, secret []byte, str bool) error {
+	if !str {
+		sec, neighbour, intact := packed(secret, []byte("neighbour"))
+		defer func() {
+			if string(neighbour) != "neighbour" || intact() != nil {
+				panic("EncryptStreamTo changed the caller's memory behind the secret (same array, beyond its length)")
+			}
+		}()
+		secret = sec
+	}
 	if str && len(secret)%2 == 1 {
 		return cryptz.EncryptStreamTo(w, rd, nstr(secret)) // a defined string type
 	}
@@ -638,6 +679,15 @@ func encStream(w io.Writer, rd io.Reader, secret []byte, str bool) error {
 }
 
 func decStream(w io.Writer, rd io.Reader, secret []byte, str bool) error {
+	if !str {
+		sec, neighbour, intact := packed(secret, []byte("neighbour"))
+		defer func() {
+			if string(neighbour) != "neighbour" || intact() != nil {
+				panic("DecryptStreamTo changed the caller's memory behind the secret (same array, beyond its length)")
+			}
+		}()
+		secret = sec
+	}
 	if !str && len(secret)%2 == 1 {
 		return cryptz.DecryptStreamTo(w, rd, nbytes(secret)) // a defined []byte type
 	}
